@@ -77,6 +77,16 @@ Definition obs_toks (o : lexobs) : list otok := match o with ObsOk l => l | ObsE
 
 Definition ref_accepts_toks_d (d : dialect) (t : list token) : bool :=
   match parse_d d (ptoks_of t) with ParseOk _ => true | _ => false end.
+
+(* the reference parser must answer (accept or reject), never run out of fuel *)
+Definition ref_answers (src : bytes) : bool :=
+  match lex src with
+  | LexOk t => match parse_d strict (ptoks_of t), parse_d gopher (ptoks_of t) with
+               | ParseOutOfFuel, _ | _, ParseOutOfFuel => false
+               | _, _ => true
+               end
+  | _ => true
+  end.
 Definition ref_accepts_toks := ref_accepts_toks_d strict.
 
 (* a lexical error is a syntax error *)
@@ -84,6 +94,15 @@ Definition ref_accepts_d (d : dialect) (src : bytes) : bool :=
   match lex src with LexOk t => ref_accepts_toks_d d t | _ => false end.
 
 Definition ptok_eqb (x y : ptok) : bool := (pty x =? pty y) && beqb (ptext x) (ptext y).
+
+(* lexemes with their separators: a token is "on a new line" when the separator before it holds a
+   line end (Lua 5.1 compares with the line where the previous token ENDS, so line ends inside a
+   preceding string token do not count) *)
+Definition ptoks_of_items (items : list (sep * lexeme)) : list ptok :=
+  map (fun sl => (lexeme_type (snd sl), lexeme_text (snd sl), existsb is_nl (sep_bytes (fst sl)))) items.
+
+Definition ref_accepts_items (items : list (sep * lexeme)) : bool :=
+  match parse (ptoks_of_items items) with ParseOk _ => true | _ => false end.
 
 (* lexemes on one line, as the parser sees them *)
 Definition ptoks_of_lexemes (l : list lexeme) : list ptok :=
@@ -111,7 +130,7 @@ Definition check_impl (c : case) : bool :=
     model_agrees src obs
     && (match lex src with LexErr _ _ => load =? LoadSyntax | _ => true end)
   | CGoSide _ => true
-  | CParse src g => Bool.eqb (ref_accepts_d gopher src) g   (* the model of what parse.Parse accepts *)
+  | CParse src g => ref_answers src && Bool.eqb (ref_accepts_d gopher src) g   (* the model of what parse.Parse accepts *)
   | CProg _ _ _ => true
   end.
 
@@ -134,12 +153,12 @@ Definition check_spec (c : case) : bool :=
     && lexobs_eqb (ObsOk (map otok_of (expected_tokens items trailer))) obs
     && (load =? LoadFunction)
     && same_code
-    && ref_accepts_toks (expected_tokens items trailer)
+    && ref_accepts_items items
   | CBytes src obs load =>
     ((load =? LoadFunction) || (load =? LoadSyntax))
     && (if obs_is_err obs then load =? LoadSyntax else true)
     && lines_ok src (model_toks (lex src)) (obs_toks obs)
   | CGoSide ok => ok
-  | CParse src g => Bool.eqb (ref_accepts_d strict src) g       (* Lua 5.1, both directions *)
+  | CParse src g => ref_answers src && Bool.eqb (ref_accepts_d strict src) g   (* Lua 5.1, both directions *)
   | CProg a b same => prog_ok a b && same
   end.
